@@ -90,6 +90,9 @@ func (server *Server) SMembers(conn *redis.Conn, key string) (*redis.Message, er
 	if err != nil {
 		return nil, err
 	}
+	if !db.HasRecord(key) {
+		return redis.NewArrayMessage(), nil
+	}
 	_, set, err := db.GetSetRecord(key)
 	if err != nil {
 		return nil, err
@@ -108,9 +111,16 @@ func (server *Server) SRem(conn *redis.Conn, key string, members []string) (*red
 	if err != nil {
 		return nil, err
 	}
+	if !db.HasRecord(key) {
+		return redis.NewIntegerMessage(0), nil
+	}
 	_, set, err := db.GetSetRecord(key)
 	if err != nil {
 		return nil, err
 	}
-	return redis.NewIntegerMessage(set.Rem(members)), nil
+	removedMemberCount := set.Rem(members)
+	if len(set.Members()) == 0 {
+		db.RemoveRecord(key)
+	}
+	return redis.NewIntegerMessage(removedMemberCount), nil
 }
